@@ -123,13 +123,13 @@ contract(
     ensures=[
         "len(result) == len(self.logLs) - 1",
         # (intermediate facts; each proved, then available to the next)
-        f"E(final('log_Z')) == {ZTRAP}",
-        "forall(i, 0, len(self.logLs) - 1, E(final('log_w')[i]) == "
+        f"E(final('log_Z', 'Real')) == {ZTRAP}",
+        "forall(i, 0, len(self.logLs) - 1, E(final('log_w', 'Seq(Real)')[i]) == "
         "E(self.log_vols[i]) - E(self.log_vols[i + 1]))",
-        "forall(i, 0, len(self.logLs) - 1, final('log_L')[i + 1] == "
+        "forall(i, 0, len(self.logLs) - 1, final('log_L', 'Seq(Real)')[i + 1] == "
         "self.logLs[i + 1])",
         "forall(i, 0, len(self.logLs) - 1, result[i] == "
-        "self.logLs[i + 1] + final('log_w')[i] - final('log_Z'))",
+        "self.logLs[i + 1] + final('log_w', 'Seq(Real)')[i] - final('log_Z', 'Real'))",
         # w_i = L_i (X_{i-1} - X_i) / Z_trap
         f"forall(i, 0, len(self.logLs) - 1, E(result[i]) == "
         f"E(self.logLs[i + 1]) * (E(self.log_vols[i]) - "
@@ -156,9 +156,9 @@ contract(
 )
 
 # ---------------------------------------------------------------- one pass
-LL = "final('log_likelihoods')"
-LV = "final('log_vols')"
-NPI = "final('nlive_per_iteration')"
+LL = "final('log_likelihoods', 'Seq(Real)')"
+LV = "final('log_vols', 'Seq(Real)')"
+NPI = "final('nlive_per_iteration', 'Seq(Real)')"
 CW_COMMON = [
     # the arrays the quadrature is taken over: L = [-inf, L_1..L_N, L_N],
     # X = [1, X_1..X_N, 0] with X_k = X_{k-1} t(n_k)
@@ -175,15 +175,15 @@ CW_COMMON = [
     "E(result[0]) == " + TRAP.format(f=LL, s=LV),
     "len(result[1]) == len(samples)",
     # (intermediate facts, each proved then used by the next)
-    f"forall(i, 0, len(samples) + 1, E(final('log_w')[i]) == "
+    f"forall(i, 0, len(samples) + 1, E(final('log_w', 'Seq(Real)')[i]) == "
     f"E({LV}[i]) - E({LV}[i + 1]))",
     "forall(i, 0, len(samples), result[1][i] == "
-    "samples[i] + final('log_w')[i] - result[0])",
+    "samples[i] + final('log_w', 'Seq(Real)')[i] - result[0])",
     # w_i = L_i (X_{i-1} - X_i) / Z: stated as the product with the
-    # rectangle widths final('log_w') proved just above (the solver is not
+    # rectangle widths final('log_w', 'Seq(Real)') proved just above (the solver is not
     # asked to re-normalise the combined polynomial)
     "forall(i, 0, len(samples), E(result[1][i]) == E(samples[i]) * "
-    "E(final('log_w')[i]) / E(result[0]))",
+    "E(final('log_w', 'Seq(Real)')[i]) / E(result[0]))",
 ]
 
 contract(
